@@ -802,6 +802,11 @@ func (gen *Generator) GenerateAssignment(expr *SexpPair, assignPos int) error {
 		if err != nil {
 			return err
 		}
+		if i < len(rhs)-1 {
+			// each def leaves its value; the assignment as a whole
+			// is one expression and leaves only the last.
+			gen.AddInstruction(PopInstr(0))
+		}
 	}
 	return nil
 }
